@@ -141,9 +141,17 @@ pub fn show_outs(outs: &[Vec<u8>]) -> String {
     format!("[{}]", outs.iter().map(|o| show_payload(o)).collect::<Vec<_>>().join(","))
 }
 
-/// Silence the default panic message (cases run under catch_unwind).
+/// number of panics seen in this process (any thread)
+pub static PANICS: std::sync::atomic::AtomicUsize = std::sync::atomic::AtomicUsize::new(0);
+
+/// Silence the default panic message (cases run under catch_unwind) and count panics.
 pub fn quiet_panics() {
-    std::panic::set_hook(Box::new(|_| {}));
+    std::panic::set_hook(Box::new(|_| {
+        PANICS.fetch_add(1, std::sync::atomic::Ordering::SeqCst);
+    }));
+}
+pub fn panics() -> usize {
+    PANICS.load(std::sync::atomic::Ordering::SeqCst)
 }
 
 pub fn stdin_lines() -> Vec<String> {
